@@ -3993,13 +3993,19 @@ class LoopNode(ActionSinkNode, ActionSourceNode):
 
         # ... and that no symbol both continues the body from an accepting state and starts the body again
         loop_start = sub_dfa.starting_state
+        if isinstance(loop_start, DFProxyState):
+            # a body that starts with a condition: the symbols some branch can start with
+            starts_body = loop_start.equivalent_on_values()[0]
+            restarts_on = lambda symbol: symbol in starts_body
+        else:
+            restarts_on = lambda symbol: loop_start[symbol] is not None and not loop_start[symbol].error_handling
         for accept_state in sub_dfa.accepting_states:
-            if accept_state is loop_start:
+            if accept_state is loop_start or isinstance(accept_state, DFProxyState):
                 continue
             for symbol in accept_state.local_alphabet() | loop_start.local_alphabet() | {DFTransition.Else}:
-                continues, restarts = accept_state[symbol], loop_start[symbol]
-                if continues is not None and restarts is not None and not continues.error_handling and not restarts.error_handling:
-                    raise IllegalDFAStateConflictsError("Ambigious loop: should loop or continue matching", continues, restarts)
+                continues = accept_state[symbol]
+                if continues is not None and not continues.error_handling and restarts_on(symbol):
+                    raise IllegalDFAStateConflictsError("Ambigious loop: should loop or continue matching", continues)
 
         # If there are error-handling transitions on the accept node, point them to the starting node as fallthrough (so that anything that _isn't_ getting matched by 
         # the last node gets forwarded to the start, looping). If there are no transitions on the final node, point everything to the start.
